@@ -34,9 +34,12 @@ def run(chk, tier, seed):
     tried = 0
     for cid, m in meta.items():
         o = obs.get(cid, "MISSING")
-        p = o.split(" ")
+        if "big" in m and o.startswith("frames="):
+            o2 = o.split(" ", 1)[1] if " " in o else ""
+        else:
+            o2 = o
+        p = o2.split(" ", 2)         # the third field lists offenders and may contain spaces (passwords)
         if "big" in m:
-            p = p[1:] if p and p[0].startswith("frames=") else p
             chk.cov.setdefault("frames_of_big_files", []).append(o.split(" ")[0])
         if len(p) != 3 or not p[0].isdigit():
             chk.violations.append(("tamper enumeration did not complete: " + o[:100], {"harness_line": [l for l in lines if l.startswith(cid + " ")][0]}))
